@@ -37,7 +37,7 @@ P = dict(
            Unit("C14_cmp_bulk", "harness/C14_cmp.cpp", defs=["-DC14_ROWS=9"], flavours={"quick": [], "thorough": ["plain-cc"]},
                 shards={"quick": 1, "thorough": 16})]
     ),
-    floor={"quick": 10000000, "thorough": 100000000},
+    floor={"quick": 100000000, "thorough": 10000000000},
     assumptions=["libstdc++ 12 <bit>, <numeric> (gcd/lcm/midpoint) and <utility> (cmp_*/in_range) are correct references",
                  "__int128 arithmetic of gcc 12 is exact for 64-bit operands",
                  "gcc 12 UBSan reports every signed overflow / invalid shift / division by zero executed"],
